@@ -198,9 +198,11 @@ void one_program(Ctx& C, std::uint64_t seed, int idx)
       if (t_off.text != a_off.text) V("location:printed-although-disabled", "with location printing disabled the located graph prints differently from its location-free twin");
       // tokens in a_on: all must be renderings of located steps; removing them must give a_off
       std::map<std::string, int> expected;      // token -> located step (the last location given to a node is the one it carries)
+      std::map<std::string, std::vector<int>> carriers;   // token -> every node that carries that location (statements of one source line share it)
       {  std::map<int, int> last;
          for (int i = 0; i < int(P.steps.size()); ++i) if (P.steps[std::size_t(i)].op == L_LOCATE) last[P.steps[std::size_t(i)].a] = i;
-         for (auto& [node, step] : last) expected[loc_token(P.steps[std::size_t(step)])] = node; }
+         for (auto& [node, step] : last) { expected[loc_token(P.steps[std::size_t(step)])] = node; carriers[loc_token(P.steps[std::size_t(step)])].push_back(node); } }
+      std::map<std::string, int> times_seen;
       static const std::regex tok("F[0-9]+:[0-9]+(:[0-9]+)? ");
       std::string stripped; std::set<std::string> seen_tokens;
       {
@@ -214,19 +216,38 @@ void one_program(Ctx& C, std::uint64_t seed, int idx)
                V("location:unexpected-token", "the output contains a location token that no located node accounts for (or a number not rendered in decimal): '" + t + "'");
                continue;
             }
-            seen_tokens.insert(t);
+            seen_tokens.insert(t); ++times_seen[t];
             stripped.append(a_on.text, pos, std::size_t(it->position()) - pos);
             pos = std::size_t(it->position()) + t.size();
          }
          stripped.append(a_on.text, pos, std::string::npos);
       }
       if (stripped != a_off.text) V("location:enabled-text-differs-beyond-tokens", "removing the location tokens from the text printed with locations does not give the text printed without");
+      // twin whose located nodes all carry different locations: whether a node shows its location does not depend on what
+      // the location is, nor on what its neighbours carry -- both texts hold the same number of location tokens
+      {
+         impl::Lexicon lexU; impl::Translation_unit unitU { lexU };
+         Prog uniq = P;
+         for (std::size_t i = 0; i < uniq.steps.size(); ++i) if (uniq.steps[i].op == L_LOCATE) uniq.steps[i].num2 = 100000 + (long long)i;
+         Exec U(lexU, unitU); U.run(uniq);
+         Printed u_on = print_all(lexU, unitU, U, uniq, true);
+         const long long n_a = std::distance(std::sregex_iterator(a_on.text.begin(), a_on.text.end(), tok), std::sregex_iterator());
+         const long long n_u = std::distance(std::sregex_iterator(u_on.text.begin(), u_on.text.end(), tok), std::sregex_iterator());
+         C.count("location_token_counts_compared_with_the_distinct_locations_twin");
+         if (n_a != n_u) V("location:count-depends-on-location-values", "the graph whose nodes share some locations shows " + std::to_string(n_a) + " location tokens, its twin with pairwise different locations " + std::to_string(n_u));
+      }
       if (a_on.refused == 0) {
          auto reach = certainly_printed(P);
          for (auto& [t, step] : expected) {
             if (!reach.count(step)) continue;
             C.count("located_nodes_expected_in_output");
             if (!seen_tokens.count(t)) V(std::string("location:missing-when-enabled:") + op_name(P.steps[std::size_t(step)].op), "a located " + std::string(op_name(P.steps[std::size_t(step)].op)) + " that is printed shows no location although location printing is enabled (token " + t + ")");
+         }
+         // nodes that share a location each show it: the token appears at least once per carrier that is certainly printed
+         for (auto& [t, nodes] : carriers) {
+            int printed = 0; for (auto n : nodes) if (reach.count(n)) ++printed;
+            if (printed >= 2) { C.count("locations_shared_by_several_printed_nodes");
+               if (times_seen[t] < printed) V("location:missing-when-enabled:shared-location", std::to_string(printed) + " printed nodes carry the location " + t + "but it appears only " + std::to_string(times_seen[t]) + " time(s) although location printing is enabled"); }
          }
       }
    }
